@@ -1202,7 +1202,7 @@ func init() {
 		}
 		f, ok := accScenarios[api]
 		if !ok {
-			return "no-such-api", "ok", ""
+			return reuseRetain(a) // reused destinations (c10reuse.go), "no-such-api" otherwise
 		}
 		seed, _ := strconv.ParseUint(a[1], 10, 64)
 		size := atoi(a[2])
